@@ -1796,13 +1796,14 @@ class DynDiGraph(nx.DiGraph):
                                 r = set(range(o[0], o[1] + 1))
                                 for i in intc:
                                     r2 = set(range(i[0], i[1] + 1))
-                                    inter = list(r & r2)
+                                    inter = sorted(r & r2)
                                     if len(inter) == 1:
                                         H.add_interaction(u, v, t=inter[0])
                                     elif len(inter) > 1:
-                                        H.add_interaction(u, v, t=inter[0], e=inter[-1])
+                                        H.add_interaction(u, v, t=inter[0], e=inter[-1] + 1)
 
-                        except Exception:
+                        except KeyError:
+                            # u and v are not linked in both directions
                             pass
 
         else:
